@@ -7,6 +7,10 @@ vlib/c04_env.py.  Lock contention is scripted through a lock object given to the
 Lines (identical to what the Lean driver `runTimeout` prints):
     op <i>                              start of the i-th call
     lock try | lock wait <t|inf>        lock.acquire(False) / lock.acquire(True, t) / `with lock:`
+    olock try | olock wait <t|inf>      the same on the lock of the OTHER direction (op key `olock`: held by another thread
+                                        for d ticks); never printed by the model: a timed call has no business with it
+    lock release-foreign                release() of a lock this call did not acquire while another thread holds it
+    lock left-held                      the call returned without releasing the lock it acquired
     rcall <bufsize> | call <offered> <nbufs> | select <R|W> <wait|inf>
     ret pkt <hex> | ret ok | ret timeout | ret eof | ret stop | ret parse | ret err <e> | ret exhausted <sock|sel> | ret rterr
     t <ticks>                           virtual time between call and return/raise
@@ -32,6 +36,12 @@ class ScriptedLock:
         self.world = world
         self.event: tuple = ("free",)
         self.held = False
+        self.role = "lock"     # "lock": the lock of the direction of the current call; "olock": the lock of the OTHER direction
+
+    def set(self, role: str, event) -> None:
+        self.role = role
+        if not self.held:
+            self.event = tuple(event)
 
     def _busy(self) -> int | None:
         return None if self.event[0] == "free" else int(self.event[1])
@@ -42,17 +52,17 @@ class ScriptedLock:
             raise AssertionError("harness: lock acquired twice")
         d = self._busy()
         if not blocking:
-            w.log.append("lock try")
+            w.log.append(f"{self.role} try")
             if d is None:
                 self.held = True
                 return True
             return False
         if timeout is None or timeout < 0:
-            w.log.append("lock wait inf")
+            w.log.append(f"{self.role} wait inf")
             w.clock.now += d or 0
             self.held = True
             return True
-        w.log.append(f"lock wait {env.fmt_t(timeout)}")
+        w.log.append(f"{self.role} wait {env.fmt_t(timeout)}")
         if (d or 0) <= timeout:
             w.clock.now += d or 0
             self.held = True
@@ -62,6 +72,11 @@ class ScriptedLock:
 
     def release(self) -> None:
         if not self.held:
+            if self._busy() is not None:
+                # threading.Lock has no owner check: releasing the lock that ANOTHER thread holds succeeds (and breaks it)
+                self.world.log.append(f"{self.role} release-foreign")
+                self.event = ("free",)
+                return
             raise RuntimeError("release unlocked lock")
         self.held = False
         self.event = ("free",)   # contention is over once we got it
@@ -158,6 +173,25 @@ def _timed(w: env.World, fn) -> None:
         raise exc
 
 
+def _left_held(w: env.World, *locks: "ScriptedLock") -> None:
+    """after a call returned: a lock it still holds is reported and then released by the harness (so that the session goes on)"""
+    for lk in locks:
+        if lk.held:
+            w.log.append(f"{lk.role} left-held")
+            lk.held = False
+            lk.event = ("free",)
+
+
+class RawDgram:
+    """one-shot pass-through serializer of the datagram client sessions"""
+
+    def serialize(self, packet: bytes) -> bytes:
+        return bytes(packet)
+
+    def deserialize(self, data: bytes) -> bytes:
+        return bytes(data)
+
+
 def run_session(case: dict) -> list[str]:
     w = env.World([], [])
     cfg = case["cfg"]
@@ -239,22 +273,28 @@ def _run_stream(case: dict, w: env.World, ri: float, closers: list) -> list[str]
             if k == "tick":
                 w.clock.now += op["p"]
                 continue
-            if client is not None and "lock" in op:
-                (recv_lock if k in ("recv",) else send_lock).event = tuple(op["lock"])
+            if client is not None and k in ("recv", "send"):
+                mine, other = (recv_lock, send_lock) if k == "recv" else (send_lock, recv_lock)
+                mine.set("lock", op.get("lock", ("free",)))
+                other.set("olock", op.get("olock", ("free",)))
             if k == "recv":
                 _timed(w, lambda: target.recv_packet(timeout=_tmo(op["T"])))
+                _left_held(w, recv_lock, send_lock)
             elif k == "send":
                 payload = bytes.fromhex(op["data"])
                 _timed(w, lambda: target.send_packet(payload, timeout=_tmo(op["T"])))
+                _left_held(w, recv_lock, send_lock)
             elif k == "iter":
                 it = client.iter_received_packets(timeout=_tmo(op["T"]))
                 for nx in op["nexts"]:
                     w.log.append("next")
                     w.clock.now += nx.get("gap", 0)
                     _load(w, nx)
-                    recv_lock.event = tuple(nx.get("lock", ("free",)))
+                    recv_lock.set("lock", nx.get("lock", ("free",)))
+                    send_lock.set("olock", nx.get("olock", ("free",)))
                     n0 = len(w.log)
                     _timed(w, lambda: next(it))
+                    _left_held(w, recv_lock, send_lock)
                     if any(ln == "ret stop" for ln in w.log[n0:]):
                         break
             else:
@@ -267,6 +307,8 @@ def _run_stream(case: dict, w: env.World, ri: float, closers: list) -> list[str]
 def _run_dgram(case: dict, w: env.World, ri: float, closers: list) -> list[str]:
     from easynetwork.lowlevel.api_sync.transports.socket import SocketDatagramTransport
 
+    if case["cfg"]["layer"] == "client":
+        return _run_dgram_client(case, w, ri, closers)
     a, b = socket.socketpair(socket.AF_UNIX, socket.SOCK_DGRAM)
     closers.append(b.close)
     s = env.ScriptedSocket(w, a)
@@ -286,6 +328,54 @@ def _run_dgram(case: dict, w: env.World, ri: float, closers: list) -> list[str]:
                 _timed(w, lambda: tr.send(payload, math.inf if op["T"] is None else float(op["T"])))
             else:
                 raise AssertionError(k)
+    except env.ScriptExhausted:
+        pass
+    return list(w.log)
+
+
+def _run_dgram_client(case: dict, w: env.World, ri: float, closers: list) -> list[str]:
+    """the same calls through the real UDPNetworkClient (connected UDP sockets on loopback), its two locks scripted"""
+    from easynetwork.clients.udp import UDPNetworkClient
+    from easynetwork.lowlevel._lock import ForkSafeLock
+    from easynetwork.protocol import DatagramProtocol
+    from easynetwork.serializers.abc import AbstractPacketSerializer
+
+    class _Ser(RawDgram, AbstractPacketSerializer):  # type: ignore[type-arg,misc]
+        pass
+
+    a = socket.socket(socket.AF_INET, socket.SOCK_DGRAM)
+    b = socket.socket(socket.AF_INET, socket.SOCK_DGRAM)
+    closers.append(b.close)
+    a.bind(("127.0.0.1", 0))
+    b.bind(("127.0.0.1", 0))
+    a.connect(b.getsockname())
+    s = env.ScriptedSocket(w, a)
+    closers.append(s.close)
+    with _PatchedSelector(w):
+        client = UDPNetworkClient(s, DatagramProtocol(_Ser()), retry_interval=ri)
+    recv_lock = ScriptedLock(w)
+    send_lock = ScriptedLock(w)
+    client._UDPNetworkClient__receive_lock = ForkSafeLock(lambda: recv_lock)  # type: ignore[attr-defined]
+    client._UDPNetworkClient__send_lock = ForkSafeLock(lambda: send_lock)  # type: ignore[attr-defined]
+    try:
+        for i, op in enumerate(case["ops"]):
+            w.log.append(f"op {i}")
+            _load(w, op)
+            k = op["op"]
+            if k == "tick":
+                w.clock.now += op["p"]
+                continue
+            mine, other = (recv_lock, send_lock) if k == "recv" else (send_lock, recv_lock)
+            mine.set("lock", op.get("lock", ("free",)))
+            other.set("olock", op.get("olock", ("free",)))
+            if k == "recv":
+                _timed(w, lambda: client.recv_packet(timeout=_tmo(op["T"])))
+            elif k == "send":
+                payload = bytes.fromhex(op["data"])
+                _timed(w, lambda: client.send_packet(payload, timeout=_tmo(op["T"])))
+            else:
+                raise AssertionError(k)
+            _left_held(w, recv_lock, send_lock)
     except env.ScriptExhausted:
         pass
     return list(w.log)
